@@ -425,7 +425,10 @@ Definition parse_newline (c : char) (st : tk) : result tk :=
   do st2 <-
     (if state_is st1 COMMENT then Ok (set_state st1 None)
      else if state_is st1 KEYWORD || state_is st1 OPERATOR then append_token st1
-     else if state_is st1 PAREN then Ok (push st1 c)
+     else if state_is st1 PAREN then
+       (* fix a35cc07: a backslash-newline inside a string of the bracket ends the escape *)
+       let st1' := push st1 c in
+       Ok (if s_is_string st1' && s_escaped st1' then set_escaped st1' false else st1')
      else Ok st1);
   Ok (set_pos st2 (s_line st2 + 1) 0).
 
